@@ -59,7 +59,8 @@ def run(ctx: Ctx) -> None:
 
 def _decoder(ctx: Ctx) -> dict[str, Any] | None:
     repo = ctx.repo
-    fi = repo.func(MOD, "map_games")
+    from sa.srcmodel import elementwise
+    fi = elementwise(repo.func(MOD, "map_games"))
     xp, yp = fi.params
     ev = make_evaluator(repo, fi)
     gw = GuardWalk(ev)
@@ -183,6 +184,20 @@ def _decoder(ctx: Ctx) -> dict[str, Any] | None:
             shift_ok = a_at is not None and a_at[0] == "ite" and \
                 a_at[2] == away0 + Poly.const(1) and a_at[3] == away0 and \
                 a_at[1] == ("le", home_ref, away0)
+            if not shift_ok and home == home_ref:
+                # the same selection written the other way round: decide it
+                # on the three orderings of (away0, home)
+                try:
+                    sel_ok = True
+                    for ranks, want_d in (((0, 1), 0), ((0, 0), 1),
+                                          ((1, 0), 1)):
+                        m_ = ordenum.OrderModel([away0, home_ref])
+                        m_.ranks = ranks
+                        d_ = (m_.select(away) - away0).const_value()
+                        sel_ok = sel_ok and d_ == want_d
+                    shift_ok = sel_ok
+                except Exception:  # noqa: BLE001
+                    shift_ok = False
             ok_dec = home == home_ref and shift_ok
             info = {"home": home, "away": away}
     except Unsupported:
@@ -472,7 +487,9 @@ def _space(ctx: Ctx, dec: dict[str, Any]) -> None:
         loops.append(lp)
         cur = lp.body
     ok_nest = len(loops) == 3
-    rng = [ast.unparse(lp.iter).replace(" ", "") for lp in loops]
+    from sa.srcmodel import inline_locals as _il
+    rng = [ast.unparse(_il(fi.node, lp.iter)).replace(" ", "")
+           for lp in loops]
     if ok_nest:
         rv, iv, jv = (lp.target.id for lp in loops)
         ok_nest = rng == ["range(rounds)", "range(n)", f"range({iv})"]
